@@ -72,7 +72,12 @@ Inductive expr :=
 | ESplitDest (e : expr)                   (* utils.split_dest(e) = e.rpartition(".")[0], [2] (source shape-checked by PipelineSrc.py) *)
 (* fifth group (_instantiate_dataclasses) *)
 | ESortAttr (e : expr) (attr : string) (rev : bool)   (* sorted(e, key=lambda w: w.attr[, reverse=True]): stable, numeric attribute *)
-| EAll (body : expr) (x : string) (iter : expr).      (* all(body for x in iter) *)
+| EAll (body : expr) (x : string) (iter : expr)       (* all(body for x in iter) *)
+(* sixth group (ConflictResolver) *)
+| EAny (body : expr) (x : string) (iter : expr)       (* any(body for x in iter) *)
+| ERec (cls : string) (fields : list (string * expr)) (* cls(f1=e1, ...): a new object (a NamedTuple / record) *)
+| ESortKey (e : expr) (x : string) (key : expr) (rev : bool)   (* sorted(e, key=lambda x: key[, reverse=True]): stable, numeric key *)
+| ECountDistinct (e : expr).                          (* len(set(e)) *)
 
 Inductive stmt :=
 | SAssign (x : string) (e : expr)
@@ -100,8 +105,12 @@ Inductive stmt :=
 (* fifth group *)
 | SBreak
 | SForBE (x : string) (iter : expr) (body els : list stmt)      (* for .. [else ..]: the body may `break` and `continue` *)
-| SCallRet (t : string) (body : list stmt) (ins : list (string * expr)) (outs : list (string * string)).
+| SCallRet (t : string) (body : list stmt) (ins : list (string * expr)) (outs : list (string * string))
    (* t = f(..): as SCall, then t receives what the procedure returned (None when it fell off the end) *)
+(* sixth group *)
+| SWhile (fuel : nat) (c : expr) (body : list stmt)   (* while c: body, at most `fuel` rounds (then the error OutOfFuel); break / continue *)
+| SDictAppend (x : string) (k e : expr)               (* x[k].append(e) on a defaultdict(list) *)
+| SRemove (x : string) (e : expr).                    (* x.remove(e): the first element equal to e *)
 Definition block := list stmt.
 
 Definition env := list (string * val).
@@ -446,6 +455,72 @@ Fixpoint all_list (f : val -> res val) (l : list val) : res val :=
   | [] => Ok (VB true)
   | v :: t => match f v with Ok b => if truthy b then all_list f t else Ok (VB false) | Err z => Err z end
   end.
+Fixpoint any_list (f : val -> res val) (l : list val) : res val :=
+  match l with
+  | [] => Ok (VB false)
+  | v :: t => match f v with Ok b => if truthy b then Ok (VB true) else any_list f t | Err z => Err z end
+  end.
+Fixpoint keyed_by (f : val -> res val) (l : list val) : res (list (nat * val)) :=
+  match l with
+  | [] => Ok []
+  | v :: t => match f v with
+              | Ok (VN k) => match keyed_by f t with Ok r => Ok ((k, v) :: r) | Err z => Err z end
+              | Ok _ => rerr
+              | Err z => Err z end
+  end.
+Definition sort_keyed (rev : bool) (kl : list (nat * val)) : list val :=
+  map snd (fold_left (fun acc p => ins_key rev (fst p) (snd p) acc) kl []).
+Fixpoint distinct (l : list val) (seen : list val) : nat :=
+  match l with
+  | [] => 0
+  | v :: t => if existsb (val_eqb v) seen then distinct t seen else S (distinct t (v :: seen))
+  end.
+Definition op_countdistinct (a : res val) : res val :=
+  match a with
+  | Ok v => match seq_items v with Some l => Ok (VN (distinct l [])) | None => rerr end
+  | Err z => Err z end.
+Fixpoint remove_first (v : val) (l : list val) : option (list val) :=
+  match l with
+  | [] => None
+  | x :: t => if val_eqb x v then Some t else option_map (cons x) (remove_first v t)
+  end.
+Definition st_dictappend (r : env) (x : string) (k e : res val) : res (env * option val) :=
+  match k, e, lookup x r with
+  | Err z, _, _ => Err z
+  | _, Err z, _ => Err z
+  | Ok kv, Ok v, Some (VD d) =>
+      match dget kv d with
+      | Some (VL l) => Ok (assign x (VD (dset kv (VL (l ++ [v])) d)) r, None)
+      | Some _ => rerr
+      | None => Ok (assign x (VD (dset kv (VL [v]) d)) r, None)
+      end
+  | Ok _, Ok _, Some _ => rerr
+  | Ok _, Ok _, None => Err (Raise "NameError")
+  end.
+Definition st_remove (r : env) (x : string) (e : res val) : res (env * option val) :=
+  match e, lookup x r with
+  | Err z, _ => Err z
+  | Ok v, Some (VL l) => match remove_first v l with Some l' => Ok (assign x (VL l') r, None) | None => Err (Raise "ValueError") end
+  | Ok _, Some _ => rerr
+  | Ok _, None => Err (Raise "NameError")
+  end.
+(* while: one round = test, then the body; break ends the loop, continue the round *)
+Fixpoint while_loop (fuel : nat) (test : env -> res val) (body : env -> res (env * option val)) (r : env) : res (env * option val) :=
+  match test r with
+  | Err z => Err z
+  | Ok c => if truthy c then
+              match fuel with
+              | O => Err OutOfFuel
+              | S k => match body r with
+                       | Err z => Err z
+                       | Ok (r', Some w) => if is_cont w then while_loop k test body r'
+                                            else if is_brk w then Ok (r', None) else Ok (r', Some w)
+                       | Ok (r', None) => while_loop k test body r'
+                       end
+              end
+            else Ok (r, None)
+  end.
+
 Definition for_else (o : res (env * option val)) (els : env -> res (env * option val)) : res (env * option val) :=
   match o with
   | Ok (r', Some w) => if is_brk w then Ok (r', None) else Ok (r', Some w)
@@ -583,6 +658,22 @@ Fixpoint eval (r : env) (e : expr) {struct e} : res val :=
   | ECallTable t a => op_calltable (eval r t) (eval r a)
   | ESplitDest a => op_splitdest (eval r a)
   | ESortAttr a attr rev => op_sortattr attr rev (eval r a)
+  | EAny body x iter => match eval r iter with
+                        | Ok it => match seq_items it with
+                                   | Some l => any_list (fun v => eval (assign x v r) body) l
+                                   | None => rerr end
+                        | Err z => Err z end
+  | ERec cls fields =>
+      (fix evalfs (l : list (string * expr)) (acc : list (string * val)) : res val :=
+         match l with
+         | [] => Ok (VR cls acc)
+         | (n, e) :: t => match eval r e with Ok v => evalfs t (rset n v acc) | Err z => Err z end
+         end) fields []
+  | ESortKey a x key rev => match eval r a with
+                            | Ok (VL l) => match keyed_by (fun v => eval (assign x v r) key) l with
+                                           | Ok kl => Ok (VL (sort_keyed rev kl)) | Err z => Err z end
+                            | Ok _ => rerr | Err z => Err z end
+  | ECountDistinct a => op_countdistinct (eval r a)
   | EAll body x iter => match eval r iter with
                         | Ok it => match seq_items it with
                                    | Some l => all_list (fun v => eval (assign x v r) body) l
@@ -695,6 +786,9 @@ Fixpoint exec (r : env) (s : stmt) {struct s} : res (env * option val) :=
                  | Ok (r1, o) => ret_to t o (copy_back r1 outs r)
                  end
       end
+  | SWhile fuel c body => while_loop fuel (fun r => eval r c) (fun r => exec_block r body) r
+  | SDictAppend x k e => st_dictappend r x (eval r k) (eval r e)
+  | SRemove x e => st_remove r x (eval r e)
   end.
 
 Fixpoint exec_block (r : env) (ss : list stmt) : res (env * option val) :=
